@@ -220,7 +220,7 @@ func diffPoint(prop string, r *core.Run, c *compiled, shape string, d doc) *core
 	if want.U != "" {
 		r.AbstainOn(want.U)
 		r.Add("oracle_abstained", 1)
-		if o.Kind == "panic" || o.Kind == "budget" {
+		if o.Kind == "panic" {
 			// a panic is never an acceptable outcome, whatever the specification leaves open
 			return &core.Violation{Sig: prop + "/" + o.Kind + "/" + shape, Desc: fmt.Sprintf("Search(%q, %s)", c.Text, d.Text),
 				Point: map[string]any{"expr": c.Text, "doc": d.Text, "shape": shape}, Expected: "a value or an error (" + want.String() + ")", Actual: o.Short()}
